@@ -33,6 +33,10 @@ def operand_kinds():
     }
 
 
+def invalid_operand_kinds():
+    return {"str": "a", "none": None, "tuple": (1, 2), "list": [x]}
+
+
 ENV_BOX = [-2, -1, 0, 1, 2, Fraction(1, 2), Fraction(-3, 2)]
 
 
@@ -279,6 +283,15 @@ class ExhaustiveOps(ProgStream):
             for ka in kinds:
                 if isinstance(kinds[ka], p.Expression):
                     yield ["un", o, ["leaf", sx[ka]]]
+        # operands that are NOT valid (`is_valid_operand` / `is_constant` guards, asserts): every
+        # node kind against a str, None, a tuple and a list, on either side
+        bad = {k: dumps(expr_to_sx(v)) for k, v in invalid_operand_kinds().items()}
+        for o in BINOPS:
+            for ka in kinds:
+                if isinstance(kinds[ka], p.Expression):
+                    for kb in bad:
+                        yield ["bin", o, ["leaf", sx[ka]], ["leaf", bad[kb]]]
+                        yield ["bin", o, ["leaf", bad[kb]], ["leaf", sx[ka]]]
 
 
 class RandomProgs(ProgStream):
@@ -403,11 +416,20 @@ def probes():
     return res
 
 
+def extract(ctx=None):
+    """T-gen: the decision trees of the operator dunders of Expression / Sum / Product, the
+    `__bool__` rules of the node classes, the operand predicates, `quotient` and the flatteners, regenerated from the live source of the tree under
+    test into lean/PV/Generated/Operators.lean (obligations `*_current` of PV.Properties.C03)"""
+    from extract.operators import extract_operators
+    return extract_operators(ctx)
+
+
 PROP = Prop(
     id="C03",
     title="Operator overloading builds trees that mean what the operators mean",
     lean_targets=["PV.Properties.C03"],
     theorems=[],
+    extractors=[extract],
     streams=[ExhaustiveOps(), RandomProgs(), Helpers(), OrderComparisons()],
     probes=[probes],
     trusted_base=[
@@ -415,10 +437,13 @@ PROP = Prop(
         "CPython's binary-operator dispatch as modelled by `dispatch` in lean/PV/Model/Ops.lean "
         "(validated by the exhaustive operator x kind x kind stream)",
         "PyNum (see C02)",
+        "extract/operators.py (ast reader of the operator dunders, operand predicates, quotient and "
+        "flatteners of pymbolic/primitives.py; unknown shapes are errors) and the table interpreter "
+        "`opByTable` of lean/PV/Model/OpsTable.lean as the reading of such a table",
     ],
     assumptions=["numpy scalars and registered constant classes are not modelled"],
-    level_text='Lean theorems for every overloaded operator (unbounded over operands and operator programs): the tree built by Python-style dispatch evaluates, wherever the plain computation on numbers is defined with an exact value, to a value == the plain one; over an arbitrary non-commutative ring the built tree equals the plain computation (no reordering). Three folds (x//1, x%1, 0**x) are proved false with concrete witnesses and kept as known findings. The model is tied to the code by the exhaustive (operator x left kind x right kind) table and random operator programs.',
-    level_note='Trusted: Lean kernel; PyNum; the model of CPython binary-operator dispatch (validated exhaustively). Side conditions of the theorems are explicit Bool predicates (exact result for true division / constant-base power; integer-valued left operand for the //1 and %1 folds). numpy scalars and registered constant classes are not modelled.',
-    technique='Lean 4 per-operator soundness lemmas + program induction + ring-evaluation theorem; exhaustive differential correspondence of the dunder-method model',
+    level_text='Lean theorems for every overloaded operator (unbounded over operands and operator programs): the tree built by Python-style dispatch evaluates, wherever the plain computation on numbers is defined with an exact value, to a value == the plain one; over an arbitrary non-commutative ring the built tree equals the plain computation (no reordering). Three folds (x//1, x%1, 0**x) are proved false with concrete witnesses and kept as known findings. The hand-written operator model is proved (ops_eq_table_current, un_eq_table_current, truthy/preds/flatten/build_eq_table_current, for all operands) to be a generic decision-tree interpreter run on the table of every operator dunder of Expression/Sum/Product, the __bool__ of every node class, the operand predicates, quotient and the flatteners that extract/operators.py regenerates from the live source on every run; in addition it is tied to the code by the exhaustive (operator x left kind x right kind) table, invalid operands on either side, and random operator programs.',
+    level_note='Trusted: Lean kernel; PyNum; the model of CPython binary-operator dispatch (validated exhaustively). Side conditions of the theorems are explicit Bool predicates (exact result for true division / constant-base power; integer-valued left operand for the //1 and %1 folds). numpy scalars and registered constant classes are not modelled. Also trusted: the ast reader extract/operators.py (unknown shapes are errors) and the reading of a table given by opByTable; CPython dispatch order and bool()/x-1 of float constants are hand-written and tied by correspondence only.',
+    technique='Lean 4 per-operator soundness lemmas + program induction + ring-evaluation theorem; dunder decision trees regenerated from source (T-gen) and proved equal to the model; exhaustive differential correspondence of the dunder-method model',
     design_ref="DESIGN.md §4 C03",
 )
